@@ -32,6 +32,7 @@ DEREF_SINKS = ('memset', 'memcpy', 'alignUp', 'memmove')
 def run(facts, rep):
     d1_entry(facts, rep)
     d2_null(facts, rep)
+    d2_nullable_tls(facts, rep)
     d3_pools(facts, rep)
 
 
@@ -260,3 +261,86 @@ def d3_pools(facts, rep):
         rep.ob('D3', 'K13', fn, 'memory_pool_allocator::allocate throws bad_alloc when the pool returns null', bool(th), 'null returned to a C++ container',
                key_extra=fn.q[-30:])
     rep.floor('D3', 9, 'pool raw memory discipline')
+
+
+
+# ---------------------------------------------------------------------------------------------------------------
+# reasoned exceptions: (function primary name, variable) -> (structural condition, reason)
+TLS_EXCEPTIONS = {
+    ('rml::internal::MemoryPool::getEmptyBlock', 'tls'):
+        ('dominated by a `> 0` loop-index guard',
+         'blocks beyond the first exist only when the per-thread pool reported an access miss, which requires a TLS '
+         '(ResOfGet(nullptr,false) when tls is null): i > 0 implies tls != nullptr; asserted by MALLOC_ASSERT(tls)'),
+}
+
+
+def d2_nullable_tls(facts, rep):
+    """K13: MemoryPool::getTLS can return null - creating the thread's TLS is itself an allocation and fails when the pool's
+    raw allocator refuses memory.  A TLSData* that comes from getTLS, or a parameter that receives such a value at a call
+    site where it has not been tested, is dereferenced only on edges where it is known to be non-null.  Otherwise the
+    allocator crashes instead of reporting the failure."""
+    from engine.rules import vars_initialised_from
+    from rules.malloc_common import nonnull_edges
+    nullable = {}
+
+    def add(u, v):
+        st = nullable.setdefault(u, set())
+        if v in st:
+            return False
+        st.add(v)
+        return True
+    src = 0
+    for fn in facts.fns.values():
+        if '/src/tbbmalloc/' not in fn.file:
+            continue
+        cs = [c[1] for c in calls_named(fn, ('getTLS',))]
+        src += len(cs)
+        for v in vars_initialised_from(fn, cs):
+            add(fn.u, v)
+    if src < 5:
+        raise AnalysisBroken('only %d getTLS() call sites found' % src)
+    changed = True
+    while changed:
+        changed = False
+        for u in list(nullable):
+            fn = facts.fns[u]
+            for pos, s, node, d in calls(fn):
+                g = facts.fns.get(node.get('fn'))
+                if g is None or '/src/tbbmalloc/' not in g.file:
+                    continue
+                for i, a in enumerate(node.get('a', [])):
+                    an = fn.n(fn.strip(a))
+                    if an.get('k') == 'var' and an.get('v') in nullable[u]:
+                        if dominated_by_edges(fn, pos, nonnull_edges(fn, an['v']))[0]:
+                            continue
+                        ps = g.d.get('params', [])
+                        if i < len(ps) and add(g.u, ps[i]['v']):
+                            changed = True
+    n = 0
+    for u, vs in sorted(nullable.items()):
+        fn = facts.fns[u]
+        for vid in sorted(vs):
+            ne = nonnull_edges(fn, vid)
+            for pos, s, node in fn.stmt_elems(('member',)):
+                if not node.get('arrow'):
+                    continue
+                bn = fn.n(fn.strip(node.get('base', -1)))
+                if bn.get('k') != 'var' or bn.get('v') != vid:
+                    continue
+                ok, wit = dominated_by_edges(fn, pos, ne)
+                exc = TLS_EXCEPTIONS.get((fn.p, bn.get('n')))
+                note = ''
+                if not ok and exc:
+                    idx_guard = edges_where(fn, lambda a, truth: truth and fn.n(fn.strip(a)).get('k') == 'binop' and
+                                            fn.n(fn.strip(a))['op'] == '>' and fn.cv(fn.n(fn.strip(a))['r']) == 0)
+                    if dominated_by_edges(fn, pos, idx_guard)[0]:
+                        ok = True
+                        note = ' [exception: %s]' % exc[0]
+                n += 1
+                rep.ob('D2', 'K13', fn, 'the TLS pointer %s (may be null when TLS creation failed) is dereferenced at line %s only where it was '
+                       'tested%s' % (bn.get('n'), node['ln'], note), ok,
+                       'getTLS() returns null when the raw allocator refuses the memory for the thread\'s TLS; this dereference is reached '
+                       'without a test: the allocator crashes instead of reporting the failure (' + wit + ')', ln=node['ln'],
+                       key_extra='%s:%s' % (fn.p, node['ln']))
+    if n < 8:
+        raise AnalysisBroken('only %d dereferences of nullable TLS pointers found' % n)
